@@ -1,6 +1,6 @@
 (* RetentionCheck.v — executable comparison of the retention model with observations of
    the real retention pass (used by the generated case files of C14). *)
-From SigM Require Import Base Retention RetentionMem.
+From SigM Require Import Base Retention RetentionMem RetentionConc.
 Open Scope N_scope.
 
 (* the iteration order the real run showed (directories in the order they were removed) *)
@@ -206,3 +206,24 @@ Definition check_views (st : store) (hz hz2 : N) (orgs : list Z) (order : order_
   ++ (if views_eqb (views_of m2) post2 then [] else [6%nat])
   ++ (if enum_ok pm en_pre && enum_ok m1 en_post then [] else [7%nat])
   ++ check_trial_views order hz2 orgs st es trials vts 200.
+
+(* ---------- the pass running while rotations publish their segments (RetentionConc.v) ---------- *)
+(* the model's machine runs the schedule the harness forced on the real code (gate 0: the publishers queue up
+   behind the pass that is about to rewrite the file; 1: they run between the selection and the rewrite); the file
+   it ends with must be the observed one: the survivors of the pass in their old order, then the published lines
+   (their order among themselves is the order in which the rotations got the lock: compared as a set) *)
+Definition conc_file (c : list seg) : option (list seg) := match c with [] => None | _ => Some c end.
+
+Definition conc_ok (needhit : bool) (gate hz : N) (org : Z) (c : list seg) (pubs : list (list seg)) (obs : list path) : bool :=
+  let s := run_sched (sched_of gate (length pubs)) (init_state needhit hz org (conc_file c) pubs) in
+  let m := map s_dir (content (mfs s)) in
+  let k := length (survivors hz org c) in
+  finished s
+  && list_eqb path_eqb (firstn k m) (firstn k obs)
+  && seteq (skipn k m) (skipn k obs)
+  && Nat.eqb (length m) (length obs).
+
+(* 0: segmeta.json differs; 1: metricmeta.json differs *)
+Definition check_conc (sm mm : list seg) (gl gm hz : N) (org : Z) (pl pm : list (list seg)) (osm omm : list path) : list nat :=
+  (if conc_ok false gl hz org sm pl osm then [] else [0%nat])
+  ++ (if conc_ok true gm hz org mm pm omm then [] else [1%nat]).
